@@ -4,6 +4,7 @@ import PromProofs.QuantileSort
 import PromProofs.QuantileNativeMono
 import PromProofs.QuantileFractionMono
 import PromProofs.QuantileFractionExt
+import PromProofs.QuantileAgree
 /-
   C32 — Histogram query functions agree with the histograms they describe.
 
@@ -543,6 +544,77 @@ example : ∀ l u v1 v2 : Rat, l < v1 → v1 ≤ v2 → v2 < u →
   have hne : u - l ≠ 0 := by grind
   exact ⟨(v1 - l) / (u - l), (v2 - l) / (u - l), by simp [XR.div_fin _ _ hne], by simp [XR.div_fin _ _ hne],
     rat_div_nonneg (by grind) hw, rat_div_mono (by grind) hw, rat_div_le_one (by grind) hw⟩
+
+/-! ## the two native functions describe the same distribution -/
+
+/-- `interp` (quantile side) and `fb` (fraction side) are inverse to each other inside a bucket: abstraction of the
+    exp2/log2 pair of promql/quantile.go and `Bucket.FractionBelow` -/
+def InverseInterp (interp fb : XR → XR → XR → XR) : Prop :=
+  ∀ l u f : Rat, l < u → 0 ≤ f → f ≤ 1 → ∃ v, interp (.fin l) (.fin u) (.fin f) = .fin v ∧
+    (f = 0 → v = l) ∧ (f = 1 → v = u) ∧ (0 < f → f < 1 → l < v ∧ v < u ∧ fb (.fin l) (.fin u) (.fin v) = .fin f)
+
+/-- both functions see the same bucket bounds: positive width, and a bucket whose closed range contains 0 belongs
+    to a non-custom histogram and has 0 in its interior (the "zero bucket" cut of both functions then coincides) -/
+def AgreeingBounds (h : NHist XR) : Prop :=
+  ∀ b ∈ h.fwd, XR.lt b.lower b.upper = true ∧
+    (XR.le b.lower (.fin 0) = true → XR.le (.fin 0) b.upper = true →
+      h.custom = false ∧ XR.lt b.lower (.fin 0) = true ∧ XR.lt (.fin 0) b.upper = true)
+
+/-- `histogram_fraction(-Inf, histogram_quantile(q, h), h) = q` for every q in [0,1]: the quantile returned for `q` is
+    a value below which exactly the fraction `q` of the observations lies, as `HistogramFraction` counts them —
+    EXACTLY, in rational arithmetic, including ranks on bucket boundaries and across the forward/reverse switch.
+    Hypotheses: consistent histogram, inverse in-bucket interpolants, `AgreeingBounds`.  The last one cannot be
+    dropped: `fraction_quantile_custom_zero_witness` (real-code behaviour for custom buckets that contain 0). -/
+theorem fraction_of_quantile (interp fb : XR → XR → XR → XR) (h : NHist XR) (C : ConsistentHist h)
+    (FBm : ∀ l u v1 v2 : Rat, l < v1 → v1 ≤ v2 → v2 < u → ∃ f1 f2, fb (.fin l) (.fin u) (.fin v1) = .fin f1 ∧
+        fb (.fin l) (.fin u) (.fin v2) = .fin f2 ∧ 0 ≤ f1 ∧ f1 ≤ f2 ∧ f2 ≤ 1)
+    (II : InverseInterp interp fb) (A : AgreeingBounds h) (q : Rat) (h0 : 0 ≤ q) (h1 : q ≤ 1) :
+    ∃ v, evalHQ interp (histogramQuantile (.fin q) h) = .fin v ∧ histogramFraction fb .ninf (.fin v) h = .fin q := by
+  obtain ⟨L, N, R, PW⟩ := C.rhist
+  have AL : ∀ b ∈ L, aLo h b < aHi h b ∧ adjLo h b = aLo h b ∧ adjHi h b = aHi h b := by
+    intro b hb
+    have hm : b.toN ∈ h.fwd := by rw [R.fwd]; exact List.mem_map_of_mem hb
+    obtain ⟨a1, a2⟩ := A b.toN hm
+    apply agree_of
+    simp only [RB.toN, XR.lt_fin, XR.le_fin, decide_eq_true_eq] at a1 a2
+    exact ⟨a1, a2⟩
+  simp only [evalHQ_eq_evalR]
+  exact fraction_of_quantile_core interp fb R PW FBm II (fun b hb => (AL b hb).1) (fun b hb => (AL b hb).2) q h0 h1
+
+/-- linear interpolation and the linear fraction are inverse to each other; `exHist` has agreeing bounds -/
+example : InverseInterp linInterp (fun l u v => XR.div (XR.sub v l) (XR.sub u l)) := by
+  intro l u f hlu h0 h1
+  have hw : u - l ≠ 0 := by grind
+  refine ⟨l + (u - l) * f, rfl, ?_, ?_, ?_⟩
+  · intro e; rw [e]; grind
+  · intro e; rw [e]; grind
+  · intro p1 p2
+    have m1 : 0 < (u - l) * f := Rat.mul_pos (by grind) p1
+    have m2 : (u - l) * f < (u - l) * 1 := Rat.mul_lt_mul_of_pos_left p2 (by grind)
+    refine ⟨by grind, by grind, ?_⟩
+    have : l + (u - l) * f - l = (u - l) * f := by grind
+    simp only [XR.sub_fin, XR.div_fin _ _ hw, this, rat_mul_div_cancel hw]
+
+example : AgreeingBounds exHist := by
+  intro b hb
+  simp [exHist] at hb
+  rcases hb with rfl | rfl | rfl | rfl <;> decide +kernel
+
+/-- NEW FINDING at model level (reproduced against promql.HistogramFraction): a CUSTOM-bucket histogram whose bucket
+    (-5, 5] contains 0.  `HistogramFraction` applies the exponential "zero bucket" cut (`b.Lower = 0` because there
+    are no negative buckets) to it — `HistogramQuantile` guards the same cut with `!h.UsesCustomBuckets()` — so all
+    observations of the bucket are counted in [0, 5]: histogram_quantile(1/4) = -5/2, but
+    histogram_fraction(-Inf, -5/2) = 0 instead of 1/4 and histogram_fraction(-5, 0) = 0 instead of 1/2. -/
+def customZeroHist : NHist XR :=
+  { custom := true, count := .fin 4, sum := .fin (-12), nNeg := 0, nPos := 3,
+    fwd := [⟨.fin (-10), .fin (-5), .fin 0⟩, ⟨.fin (-5), .fin 5, .fin 4⟩, ⟨.fin 5, .fin 10, .fin 0⟩],
+    rev := [⟨.fin 5, .fin 10, .fin 0⟩, ⟨.fin (-5), .fin 5, .fin 4⟩, ⟨.fin (-10), .fin (-5), .fin 0⟩] }
+
+theorem fraction_quantile_custom_zero_witness :
+    evalHQ linInterp (histogramQuantile (.fin (1/4)) customZeroHist) = .fin (-5/2) ∧
+    histogramFraction (fun l u v => XR.div (XR.sub v l) (XR.sub u l)) .ninf (.fin (-5/2)) customZeroHist = .fin 0 ∧
+    histogramFraction (fun l u v => XR.div (XR.sub v l) (XR.sub u l)) (.fin (-5)) (.fin 0) customZeroHist = .fin 0 := by
+  refine ⟨?_, ?_, ?_⟩ <;> decide +kernel
 
 /-! ## histogram_count / histogram_sum / histogram_avg -/
 
